@@ -495,6 +495,14 @@ func superviseShard(id string, cfg propCfg, v variant, bin, tier string, seed ui
 			res.nviol["hang:"+key]++
 		case verdict == "wall-timeout":
 			res.inconclusive = append(res.inconclusive, fmt.Sprintf("variant=%s idx=%d key=%s: wall-clock watchdog fired without a logical verdict", v.Name, idx, key))
+		case idx < 0 && fatalFrame(headFile(errFile, 20000)) != "":
+			// the worker died while it prepared its cases (the unperturbed baseline sessions), in a goroutine that
+			// was executing SDK code: that is an observation about the SDK, not a broken harness
+			k := "fatal:" + fatalSite(headFile(errFile, 20000)) + ":" + fatalFrame(headFile(errFile, 20000))
+			res.viols = append(res.viols, viol{Key: k, What: fmt.Sprintf("worker process died (%v) while preparing its cases (unperturbed baseline sessions): %s", werr, firstLines(headFile(errFile, 800), 3)),
+				Idx: -1, Shard: shard, Variant: v.Name, Witness: map[string]any{"stderr_head": headFile(errFile, 3000), "stderr_tail": tail}})
+			res.nviol[k]++
+			return res
 		case idx < 0:
 			res.inconclusive = append(res.inconclusive, fmt.Sprintf("variant=%s shard=%d: worker died outside any case: %v: %s", v.Name, shard, werr, oneLine(tailFile(errFile, 600), 600)))
 			return res
